@@ -150,6 +150,13 @@ func rmRows(s *relmod.Schema) [][]string {
 	for _, t := range s.Tag.Ep {
 		add("ep.tag", join(t.AppName), t.EpName, t.EpTag)
 	}
+	// the tags and annotations of an event are rows of their own relations: the same facts about the event's endpoint
+	for _, t := range s.Tag.Event {
+		add("ep.tag", join(t.AppName), t.EventName, t.EventTag)
+	}
+	for _, a := range s.Anno.Event {
+		add("ep.anno", join(a.AppName), a.EventName, a.EventAnnoName, annoStr(a.EventAnnoValue))
+	}
 	for _, a := range s.Anno.App {
 		add("app.anno", join(a.AppName), a.AppAnnoName, annoStr(a.AppAnnoValue))
 	}
